@@ -96,6 +96,13 @@ MUTANTS = [
     ("c16_sub_flagged", ["C16"], "bt/core.py", "        if self.root == self:\n            if (val < 0)", "        if True:\n            if (val < 0)"),
     ("c16_flatten_only_own_securities", ["C16"], "bt/core.py", "            [self.close(c.name, update=False) for c in self._childrenv if c.value != 0]", "            [self.close(c.name, update=False) for c in self._childrenv if c.value != 0 and c._issec]"),
     ("c16_flag_next_date", ["C16"], "bt/core.py", "            if (val < 0) and not self.bankrupt and not self.fixed_income and not is_zero(val):", "            if (val < 0) and (self._value < 0) and not self.bankrupt and not self.fixed_income and not is_zero(val):"),
+    # ---- C11
+    ("c11_no_deepcopy_of_template", ["C11"], "bt/backtest.py", "        self.strategy = deepcopy(strategy)\n", "        self.strategy = strategy\n"),
+    ("c11_rerun_reruns", ["C11"], "bt/backtest.py", "        if self.has_run:\n            return\n", "        if False:\n            return\n"),
+    ("c11_data_nan_row_inplace", ["C11"], "bt/backtest.py", "        self.data = data_new\n", "        self.data = data_new\n        data.iloc[0, 0] = data.iloc[0, 0] * 1.0000001\n"),
+    ("c11_universe_order_from_set", ["C11"], "bt/core.py", "            valid_filter = [c for c in universe.columns if c in tickers]", "            valid_filter = list(tickers.intersection(universe.columns))"),
+    ("c11_children_not_copied", ["C11"], "bt/core.py", "                if dc:  # deepcopy object for possible later reuse\n                    c = deepcopy(c)", "                if dc and isinstance(c, str):  # deepcopy object for possible later reuse\n                    c = deepcopy(c)"),
+    ("c11_additional_data_shared", ["C11"], "bt/backtest.py", "                new = pd.concat([empty_row, old])\n                self.additional_data[k] = new\n            elif", "                old.iloc[0, 0] = old.iloc[0, 0]\n                old.iloc[-1, -1] = 0.123 if old.dtypes.iloc[-1] == float else old.iloc[-1, -1]\n                new = pd.concat([empty_row, old])\n                self.additional_data[k] = new\n            elif"),
     # ---- C08
     ("c08_fee_reset_every_update", ["C08", "C07"], "bt/core.py", "        # update now\n        self.now = date\n        if inow is None:\n            if self.now == 0:\n                inow = 0\n            else:\n                inow = self.data.index.get_loc(date)\n\n        # update children if any and calculate value", "        # update now\n        self.now = date\n        self._last_fee = 0.0\n        if inow is None:\n            if self.now == 0:\n                inow = 0\n            else:\n                inow = self.data.index.get_loc(date)\n\n        # update children if any and calculate value"),
     ("c08_outlay_row_accumulates", ["C08", "C07"], "bt/core.py", "            self._outlays.array[inow] += self._outlay\n            # reset outlay back to 0\n            self._outlay = 0\n", "            self._outlays.array[inow] += self._outlay\n"),
